@@ -81,7 +81,7 @@ CLAIMED['C09'] = dict(
          'named; second release is a no-op; merge never changes a pool and sums the holdings. The model is the manager as '
          'repaired by the fix: commits F1, F2, F3, F9. Tie: family rm vs the real ResourceManager, incl. zero / negative / '
          'unknown entries and pre-start operations; monitor: usage = sum of all holdings, error => nothing changed.',
-    note=BASE_NOTE + ' Hypotheses: request dictionaries have distinct keys; merge gets two distinct reservations; integer amounts.',
+    note=BASE_NOTE + ' Hypotheses: request dictionaries have distinct keys; integer amounts (merge of a reservation with itself is a no-op since the repair of F11: inv_merge needs no distinctness; only merge_holdings, which describes the merged holdings, takes a != b).',
     technique='Lean 4 invariant proof by induction over operation sequences + differential correspondence',
 )
 
@@ -139,7 +139,7 @@ CLAIMED['C02'] = dict(
          'counterexamples kept in the file (the model allows a failing sink and dangling device indices, which the library does '
          'not). Tie: families floor/floorc/floors vs the real code on slots, part contents, sink counts, failure log and '
          'shutdown callbacks; census monitor on implementation traces after every event.',
-    note=BASE_NOTE + ' Hypotheses of conservation_reachable: Static (no rewire/create in scripts, failures only on non-sinks, every device reachable by a hand-over exists). Dynamic rewiring/creation is covered by the per-action theorems under ActOK.',
+    note=BASE_NOTE + ' Hypotheses of conservation_reachable: Static (no rewire/create in scripts, failures only on non-sinks, every device reachable by a hand-over exists). For worlds whose scripts rewire and create (conservation_reachable_dyn): class Dyn (decidable certificate DynAuto), each clause shown necessary by a counterexample.',
     technique='Lean 4 closed-world invariant proof by induction over events + differential correspondence + census monitor',
 )
 
@@ -173,7 +173,7 @@ CLAIMED['C05'] = dict(
     technique='Lean 4 contract proof for an abstract machine + refinement lemmas to the model + differential correspondence',
 )
 CLAIMED['C08'] = dict(
-    text='Theorems (Props/C08.lean, 47) about the model\'s hand-over functions for every world: the stable sort used for the '
+    text='Theorems (Props/C08.lean, 48) about the model\'s hand-over functions for every world: the stable sort used for the '
          'downstream order is a permutation, sorted by waiting-since with "not waiting" last, and stable, and the accepting '
          'device is the first in that order that accepts (idle longest first); a gate whose predicate rejects or a blocked '
          'gate/path/handler returns the unchanged world; a refused hand-over leaves NO trace: the parts table (all histories and '
@@ -266,7 +266,7 @@ CLAIMED['C13'] = dict(
 )
 
 CLAIMED['C15'] = dict(
-    text='Theorems (Props/C15.lean, 115) about the model\'s data log for every world: the log is append-only through EVERY model '
+    text='Theorems (Props/C15.lean, 114) about the model\'s data log for every world: the log is append-only through EVERY model '
          'function and hence through every executed event (trace_is_append_only: records are never removed or rewritten, old '
          'records keep their positions); exactly-one-record lemmas with the values of that moment for every site: failure (after '
          'the resource records, with the part that was in process), received (quality and value before the receive callbacks; '
@@ -306,7 +306,7 @@ def _add(pid, tail, note=None, technique=None):
 
 
 _add('C01', 'CLOSED WORLD (Props/C01W.lean): every floor and world function of the model changes the event queue only through '
-     'library queue operations (env_refines_<f> for all 50 functions), so the queue invariants, dispatch order, clock '
+     'library queue operations (env_refines_<f> for 56 theorems), so the queue invariants, dispatch order, clock '
      'monotonicity, executed-at-most-once and the run(d) specification hold in every world reachable by constructor calls, '
      'operations, simulateInit, runBegin, step and runLoop (dispatch_order_world, clock_monotone_world, executed_once_world, '
      'run_ends_world); whole simulations (families floor, floorm) are compared too.',
@@ -332,7 +332,7 @@ _add('C20', 'CLOSED WORLD (Props/C20W.lean): registration frame theorems (one en
      'reg_reachable / count_reachable (an instrumented model counts initialisations: exactly 1 per registered asset once '
      'started, 0 before), simulateInit_idem, create_started (late creation = registration + initAsset at now), '
      'create_commutes (for a not-started world creating before or after simulateInit gives the SAME world, queue included, '
-     'under the decidable side condition CommuteOK; three checked counterexamples show when it fails), invariants survive '
+     'under the decidable side condition CommuteOK; three checked counterexamples commute_false_* show when it fails; reg_false_stale_spec for the registration invariant), invariants survive '
      'creation (Good, ConsS, C09.Inv), late_processor_bookkeeping (uptime clock starts at creation).')
 _cut('C02', 'Tie: families floor/floorc/floors', 'DYNAMIC WORLDS (Props/C02W.lean): conservation_reachable_dyn for worlds whose scripts and external operations REWIRE '
      'devices and CREATE devices, groups, maintainers, schedulers and sensors while running (class Dyn; 14 decide-checked '
@@ -389,7 +389,7 @@ _add('C14', 'CLOSED WORLD (Props/C14W.lean): world_run_split (run d1 then d2 = r
      'popped event is alone in its time-priority class), exec_queue_blind.')
 _add('C18', 'CLOSED WORLD (Props/C18W.lean): pending_transition (exactly one live transition event, due at t0 + T k), '
      'records_timetable_prefix, transition_step (one action call per registered object, in order), no_acts_elsewhere in every '
-     'reachable world; eight checked counterexamples show the static class necessary.')
+     'reachable world; five checked counterexamples (pending_false_*) show the static class necessary.')
 _add('C19', 'CLOSED WORLD (Props/C19W.lean): periodic_sensor_reachable (samples at t0 + k*interval with the values of that moment, one '
      'callback result each, exactly one pending event), series_reachable, output_sensor_reachable / decision_pattern.')
 CLAIMED['C16']['text'] = CLAIMED['C16']['text'].replace(' (partial: sites not theorems)', ' (the site amounts are theorems of the closed-world layer below)')
@@ -407,8 +407,22 @@ CLAIMED['C03']['text'] = CLAIMED['C03']['text'].replace('Several groups are outs
      'no_lost_wakeup_rewire_all_reachable (class S4R; connection_added: a newly connected acceptor gets an attempt queued at that '
      'instant; connection_removed; four checked counterexamples for the excluded rewirings). Several groups and creation are outside S4R:')
 
-CLAIMED['C03']['text'] = CLAIMED['C03']['text'].replace('Several groups and creation are outside S4R:', 'SEVERAL GROUPS (chained, re-entrant, nested; batchers at nesting depth <= 1) are covered by '
-     'no_lost_wakeup5_reachable (scope S5, typed group-path stacks); a batcher at depth 2 loses a wake-up in the model AND in the library '
+CLAIMED['C03']['text'] = CLAIMED['C03']['text'].replace('Several groups and creation are outside S4R:', 'SEVERAL GROUPS (chained, re-entrant, nested; batchers at nesting depth <= 1; all paths of one group in the same nesting context) are covered by '
+     'no_lost_wakeup5_reachable (scope S5, typed group-path stacks) and, with rewiring issued from outside between events, no_lost_wakeup5_rewire_reachable; a batcher at depth 2 loses a wake-up in the model AND in the library '
      '(nested_batcher_false, known finding F14, printed as KNOWN-FINDING). Scripted rewiring with several groups and creation are outside the scopes:')
 CLAIMED['C03']['note'] = BASE_NOTE + ' Partial: closed-world theorem for scopes S4R (rewiring, one group) and S5 (several groups); scripted rewiring with several groups and creation by probe and correspondence. Known finding F14 (nested groups with batches crossing group boundaries). "run returns": per-scenario watchdog.'
 CLAIMED['C08']['note'] += ' Known finding F14 (nested groups with batches crossing group boundaries: a part leaves the inner group through the outer path) is reported as KNOWN-FINDING.'
+
+_add('C13', 'CLOSED WORLD, own file (Props/C13W.lean; from the timer invariant C06W.WI, which holds in every world reachable from a '
+     'fresh world of class Static\' + Init; item 5 also C12W.Inv): down_is_inert (across every step in which a processor is down before '
+     'and after, its slots, reservation and the four accounting fields are unchanged except by its own live failure / release '
+     'event, it refuses every part, its pass handler changes nothing, its finish timer is paused as exactly one live event), '
+     'shutdown_keeps_part (same part, same remaining work, finish due at now + r once operational), failure_discards_exactly '
+     '(input slot emptied, output untouched, lost log grows by exactly the lost leaves, exactly one failure record, one callback '
+     'result per shutdown callback), lost_only_by_failure, finished_part_survives(_step), finished_part_leaves (under C03W.GoodB: '
+     'a kept finished part has a live pass event or is genuinely blocked), repeated_ops_noop, work_order_downtime_exact (between '
+     'START and FINISH of a default order the clock advances by exactly the duration, upTime + downTime = dur, downTime = dur when '
+     'no other control event intervenes), uptime_exact / utilization_exact (differences of the accounts over any span of a run '
+     'equal the summed operational / busy time). Two sketched claims are shown FALSE in the class by decide '
+     '(down_pending_false: stray release events of the initial queue; work_order_downtime_ge_false: a script restoring the '
+     'machine mid-order).')
